@@ -8,24 +8,24 @@ for l in open(os.path.join(ROOT, "properties.jsonl")):
 
 # property -> (status text, technique)
 TEXT = {
- "C11": "Coq theorems: C11_restore_and_future - for every history of feeds, flushes and resizes, outside the three known-finding classes (kf1 origin mode with cursor outside the region; kf2 alternate screen with stale parked primary; kf3 sizes beyond the 16-bit parameter range), dump() fed to a fresh terminal restores an observationally equal terminal (cells, pens, wrap marks, cursor incl. wrap-pending, visibility, modes, margins, tabs, charsets, saved contexts, parser state incl. mid-sequence cuts) and the two stay equal under every further input; building blocks: Parser::dump / Pen::dump / Buffer::dump round trips, the 14-step script, bisimulation. The same statement is evaluated on the implementation (holds_C11 + public observables), dump strings are compared with the model's character by character",
+ "C11": "Coq theorems: C11_restore_and_future - for every history of feeds, flushes and resizes, outside the three known-finding classes (kf1 origin mode with cursor outside the region; kf2 alternate screen with stale parked primary; kf3 sizes beyond the 16-bit parameter range), dump() fed to a fresh terminal restores an observationally equal terminal (cells, pens, wrap marks, cursor incl. wrap-pending, visibility, modes, margins, tabs, charsets, saved contexts, parser state incl. mid-sequence cuts) and the two stay equal under every further input; building blocks: Parser::dump / Pen::dump / Buffer::dump round trips, the 14-step script, bisimulation. The same statement is evaluated on the implementation (holds_C11 + public observables), dump strings are compared with the model's character by character; findings narrowed to their exact executable classes (kf1_C11_narrow, kf3b_C11), any target limit (C11_exact)",
  "C09": "Coq theorems: for every width/height >= 1 and every list of printable lines, text() of a fresh terminal fed the CR LF-joined text equals the lines (trailing whitespace trimmed, trailing empties aside); width independence; TextUnwrapper agreement; holds_C09 is a theorem of the model and is evaluated on the implementation",
- "C16": "Coq theorems: holds_C16 for every control function from every state satisfying the invariant (parked primary untouched while on the alternate screen, blank alternate screen in the current pen on every entry incl. mode lists, 1049 saves first, exact restore when the size is unchanged); resized excursion: C10's resize_preserves on the parked buffer",
- "C12": "Coq theorems: for EVERY scrollback limit any two chunkings of the same character stream (and per-character feed()) from any state satisfying the invariant end with equal parser and the same visible screen, cursor, modes, margins, tabs, saved contexts (C12_sessions, C12_perchar); with unlimited scrollback also the same lines() (holds_C12). Underlying: no control function reads dirty flags, trim flags or rows above the view. Known finding KF-C12-1 (lines() after per-character feed() on the alternate screen) classified separately",
- "C14": "Coq theorem: for every size, limit L and RIS-free session of feed_str calls from the initial state ending on the primary screen, drained lines ++ final lines() = lines() of the unlimited run (cell for cell, in order); nothing lost at a report (C14_flush)",
- "C15": "Coq theorems: every control function marks every row whose cells it changes (ghost invariant DInv preserved by execute / resize), hence every report returned by feed_str / resize is sound (holds_C15)",
- "C20": "Coq theorem over the regenerated parser tables: every concatenation of OSC/DCS/SOS/PM/APC strings (7/8-bit introducers, ST / ESC \\\\ / BEL), unimplemented CSI / ESC sequences and unassigned C0/C1 controls (grammar inert_spec, outside the known-finding class kf_c20) emits no function from any parser in ground state and ends in ground state; KF-C20-1 proved real (witness CSI > ! p); exhaustive sweep validates the tables",
+ "C16": "Coq theorems: holds_C16 for every control function from every state satisfying the invariant (parked primary untouched while on the alternate screen, blank alternate screen in the current pen on every entry incl. mode lists, 1049 saves first, exact restore when the size is unchanged); resized excursion: C10's resize_preserves on the parked buffer; text of the primary on EVERY return (47 / 1047 / 1049, any mode list, any scrollback limit: re-wrapped, never altered, exact when the size is unchanged) and whole-excursion theorems (C16_return_text, C16_whole_excursion)",
+ "C12": "Coq theorems: for EVERY scrollback limit any two chunkings of the same character stream (and per-character feed()) from any state satisfying the invariant end with equal parser and the same visible screen, cursor, modes, margins, tabs, saved contexts (C12_sessions, C12_perchar); with unlimited scrollback also the same lines() (holds_C12). Underlying: no control function reads dirty flags, trim flags or rows above the view. Known finding KF-C12-1 (lines() after per-character feed() on the alternate screen) classified separately; from every state (parked_ok discharged), per-character lines() on the primary screen, mixed feed()/feed_str() sessions (Proofs/C12Lines.v)",
+ "C14": "Coq theorem: for every size, limit L and RIS-free session of feed_str calls from the initial state ending on the primary screen, drained lines ++ final lines() = lines() of the unlimited run (cell for cell, in order); nothing lost at a report (C14_flush); also for sessions mixing feed() and feed_str() cut differently on both sides (C14_mixed_calls)",
+ "C15": "Coq theorems: every control function marks every row whose cells it changes (ghost invariant DInv preserved by execute / resize), hence every report returned by feed_str / resize is sound (holds_C15); history level, unconditional: along every history from every fresh terminal each report is sound w.r.t. the previous one (C15_histories)",
+ "C20": "Coq theorem over the regenerated parser tables: every concatenation of OSC/DCS/SOS/PM/APC strings (7/8-bit introducers, ST / ESC \\\\ / BEL), unimplemented CSI / ESC sequences and unassigned C0/C1 controls (grammar inert_spec, outside the known-finding class kf_c20) emits no function from any parser in ground state and ends in ground state; KF-C20-1 proved real (witness CSI > ! p); exhaustive sweep validates the tables; terminal level: the whole terminal record is Leibniz-equal afterwards and feed_str reports what it reports for the empty string (C20_terminal, C20_no_changed_line), also from every parser state for sequences starting with ESC / C1",
  "C01": "Coq theorems: for every size >= 1x1, limit and sequence of feed / flush / resize operations the model never reaches a panic site and never exhausts loop fuel (C01_no_panic, by the inductive invariant Inv); dump(), view(), line(n<rows) never panic; parser total. The timing clause is PARTIAL by nature: loop bounds are fuel measures in the model, wall-clock is a watchdog on a model-free stress run of the implementation (overflow checks on)",
- "C02": "Coq theorems: Inv is inductive for feed / flush / resize and holds initially; the executable geometry statement holds_C02_state follows from Inv for every reachable state; holds_C02_call (changed-line indices strictly increasing < rows, size as requested) for every call",
- "C03": "Coq theorems over the Parser::feed table AND the dispatch tables regenerated from the source on every run: transition table = Williams diagram + 4 deviations for all 14 states x all of N; CSI / ESC / C0-C1 / mode dispatch = hand-written function table (Spec/Functions.v) for every marker, final byte and parameter array; one parser step = table transition + action, never panics; ESC Fe = C1; memorylessness; digit accumulation mod 2^16. Translator validated by an exhaustive sweep of the implementation; the function table, memorylessness and SGR decoding are also evaluated on the implementation",
- "C04": "Coq theorems: from every state satisfying the invariant, Print and REP yield exactly the specified screen (spec_print / spec_rep: deferred wrap with region scroll, insert mode, last-column rule, charset table), nothing else changes, invariant re-established; the executable statement holds_C04 is a theorem of the model and is evaluated on every implementation step",
+ "C02": "Coq theorems: Inv is inductive for feed / flush / resize and holds initially; the executable geometry statement holds_C02_state follows from Inv for every reachable state; holds_C02_call (changed-line indices strictly increasing < rows, size as requested) for every call; size() stable across feeds (C02_size_stable)",
+ "C03": "Coq theorems over the Parser::feed table AND the dispatch tables regenerated from the source on every run: transition table = Williams diagram + 4 deviations for all 14 states x all of N; CSI / ESC / C0-C1 / mode dispatch = hand-written function table (Spec/Functions.v) for every marker, final byte and parameter array; one parser step = table transition + action, never panics; ESC Fe = C1; memorylessness; digit accumulation mod 2^16. Translator validated by an exhaustive sweep of the implementation; the function table, memorylessness and SGR decoding are also evaluated on the implementation; parameters as written end to end from the characters, with private markers / intermediates, for every text (Proofs/ParamsWritten.v, ParamsPrefixed.v)",
+ "C04": "Coq theorems: from every state satisfying the invariant, Print and REP yield exactly the specified screen (spec_print / spec_rep: deferred wrap with region scroll, insert mode, last-column rule, charset table), nothing else changes, invariant re-established; the executable statement holds_C04 is a theorem of the model and is evaluated on every implementation step; the soft-wrap mark of the row left is proved outside the class kf1_C04 and proved LOST on all of it (known finding KF-C04-1: wrap on a bottom margin above the last row); semantics of SM/RM 4, DECAWM pinned",
  "C05": "Coq theorems: for EVERY cursor command of the property (incl. tab searches) and every state satisfying the invariant the model function equals spec_cursor - only cursor fields change (margins/origin for DECSTBM/DECOM), no cell changes; holds_C05 is a theorem of the model and is evaluated on every implementation step",
  "C06": "Coq theorems: LF/IND/NEL/RI on the margins, SU, SD, IL, DL equal the view-level specification spec_scroll (range shift, blanks in the pen, rows outside unchanged, exactly the pushed rows appended to the scrollback in order) from every state satisfying the invariant; Buffer::scroll_up/down characterised for all three code paths",
  "C07": "Coq theorems: ED/EL/ECH/ICH/DCH/DECALN equal the closed-form specification spec_edit from every state satisfying the invariant; holds_C07 is a theorem of the model and is evaluated on every implementation step",
  "C08": "Coq theorems: SGR decoder = grammar of the property for every parameter array; each op acts on the public pen observations as specified (arbitrary attribute byte); pen = left fold; SGR changes nothing but the pen; no other function changes the pen (holds_C08 for every step); cells carry the pen by C04/C06/C07",
  "C10": "Coq theorems: reflow preserves the list of logical lines exactly; Buffer::resize keeps the cursor in the same logical line and on the same character; the full executable statement resize_preserves / holds_C10 holds for every Resize step from every state satisfying the invariant (all sizes, cursors incl. wrap-pending)",
  "C13": "Coq theorems: the lazy-trim invariant is preserved by every operation and the end-of-call trim establishes the bound: after every feed_str / resize of every session holds_C13 (<= rows + L + L/10 lines, = rows for L = 0 and on the alternate screen)",
- "C17": "Coq theorems: holds_C17 (per-screen saved-context bookkeeping for all save/restore spellings, DECSTR, RIS, every other function) and holds_C17_resize for every step from every state satisfying the invariant",
+ "C17": "Coq theorems: holds_C17 (per-screen saved-context bookkeeping for all save/restore spellings, DECSTR, RIS, every other function) and holds_C17_resize for every step from every state satisfying the invariant; run level: save, any run without save / DECSTR on that screen and without RIS (screen switches, other-screen saves, resizes allowed), restore gives exactly the saved column, row, pen, origin and auto-wrap modes (C17_round_trip*); per-screen contexts across every switch (C17_switch); DECSTR resets the saved context (known finding KF-C17-1, DEC STD 070 behaviour)",
  "C18": "Coq theorems: default stops, set/unset, n-th next/previous stop, contract/expand (incl. the first new column when a multiple of 8), fresh terminals keep the defaults across any resize; holds_C18 / holds_C18_resize for every step from every state satisfying the invariant",
  "C19": "Coq theorems: ESC c fed to ANY state satisfying the invariant (any parser state, alternate screen, any modes) yields syntactically the state of a fresh Vt of the same size and limit - parser, terminal, buffers, dirty flags - hence identical behaviour on all future input; the regenerated hard_reset list covers every field (incl. cursor-key mode, fix D3)",
 }
@@ -58,7 +58,7 @@ for p in claimed:
         "replay_cmd_template": "./check %s --replay {path}" % p,
         "engine": "coq-proof+correspondence",
         "level_claimed": {"category": "proof", "text": TEXT[p], "design_ref": "DESIGN.md section 7 (%s) and section 13 (status)" % p},
-        "level_note": "trusted: Coq 8.16.1 kernel + vm_compute; translator (validated); ExtrOcamlBasic extraction; Rust harness + cfg(avt_verif) state hook; hand-modelled terminal.rs/buffer.rs/line.rs/tabs.rs tied by step-wise correspondence (testing); specs in coq/Spec are the formal reading of the property",
+        "level_note": "trusted: Coq 8.16.1 kernel + vm_compute; translator (validated); ExtrOcamlBasic extraction; Rust harness + cfg(avt_verif) state hook; every function of the crate except the iterator Chunks::next is regenerated from the source on every run and tied to the hand-written model by theorems (Cxx_source_*), in addition to the step-wise correspondence (testing); specs in coq/Spec are the formal reading of the property",
         "technique": TECH,
     })
 for p in sorted(TITLES):
